@@ -51,6 +51,14 @@ CHECKS["C15"] = (
     "DESIGN.md section 2 / C15",
 )
 
+CHECKS["C17"] = (
+    "proptest-generated include trees; differential against `clang -M` on the same command line, depfile round-trip parse, callback log vs cargo lines",
+    "exploration",
+    "Generated include DAGs (five include forms, active and inactive preprocessor regions, repeated inclusion, awkward file names, symlinked search directory, one to three input headers, relative inputs) are written to disk; the realpath-normalised set clang reads must equal the set bindgen reports through each channel (depfile prerequisites, header_file/include_file notifications, cargo:rerun-if-changed lines captured from an isolated worker's stdout); the depfile must re-parse to the configured target and the same paths; rerun-if-env-changed lines must match the documented lookup chain for TARGET / BINDGEN_EXTRA_CLANG_ARGS*, none twice.",
+    "clang -M (binary, same front end as libclang) is the reference; the generator's own reachability model cross-checks the reference parse; header_contents inputs and raw `-- -include` arguments are not generated.",
+    "DESIGN.md section 2 / C17",
+)
+
 NOT_YET = {}
 
 def main():
